@@ -343,17 +343,7 @@ Definition fix_ex_c0 :=
         mkC 2 11%N OOurs false [] false 1 None] (Some [0; 2]) 20%N.
 
 Lemma fix_ex_WF prune : WF (fix_ex_sc prune) fix_ex_c0.
-Proof.
-  unfold WF. cbn. split.
-  - intros _. constructor; [intros [H|[]]; discriminate|]. constructor; [intros []|constructor].
-  - split.
-    { constructor; [intros [H|[]]; discriminate|]. constructor; [intros []|constructor]. }
-    split.
-    { intros c [<-|[<-|[]]]; cbn; lia. }
-    split.
-    { intros c c' [<-|[<-|[]]] [<-|[<-|[]]]; cbn; intros E; try reflexivity; discriminate. }
-    split; [discriminate|]. destruct prune; discriminate.
-Qed.
+Proof. apply wf_b_spec. destruct prune; vm_compute; reflexivity. Qed.
 
 (* all decidable hypotheses hold, with and without pruning *)
 Example fix_ex_hyps :
@@ -401,11 +391,7 @@ Definition fix_rp_sc (bad : bool) :=
 Definition fix_rp_c0 := mkCl [] None 1%N.
 
 Lemma fix_rp_WF bad : WF (fix_rp_sc bad) fix_rp_c0.
-Proof.
-  unfold WF. cbn. split.
-  - intros _. constructor; [intros [H|[]]; discriminate|]. constructor; [intros []|constructor].
-  - split; [constructor|]. split; [intros c []|]. split; [intros c c' []|]. split; discriminate.
-Qed.
+Proof. apply wf_b_spec. destruct bad; vm_compute; reflexivity. Qed.
 
 Lemma fix_two_needs_no_invalid : exists sc1 sc2 c0,
   WF sc1 c0 /\ clean_run sc1 (run sc1 c0) = true /\ NoDup (prev_of c0) /\ fix_second sc1 sc2 = true /\
@@ -434,13 +420,7 @@ Definition fix_dp_c0 :=
   mkCl [mkC 0 10%N OOurs false [] false 1 (Some (mkLA OOurs false [] false 1))] (Some [0; 0]) 20%N.
 
 Lemma fix_dp_WF spa : WF (fix_dp_sc spa) fix_dp_c0.
-Proof.
-  unfold WF. cbn. split.
-  - intros _. constructor; [intros []|constructor].
-  - split; [constructor; [intros []|constructor]|].
-    split; [intros c [<-|[]]; cbn; lia|].
-    split; [intros c c' [<-|[]] [<-|[]] _; reflexivity|]. split; discriminate.
-Qed.
+Proof. apply wf_b_spec. destruct spa; vm_compute; reflexivity. Qed.
 
 Lemma fix_two_needs_nodup : exists sc1 sc2 c0,
   WF sc1 c0 /\ clean_run sc1 (run sc1 c0) = true /\ pl_invalid (plan_of sc1 c0) = [] /\
